@@ -144,6 +144,41 @@ impl Family for FStdlibReals {
     }
 }
 
+/// Integers beyond the range an f64 represents exactly (neighbours that round to one f64): order,
+/// minimum / maximum and sorting of integers are exact, whatever shortcut through reals a
+/// numeric-only table might invite.
+pub struct FStdlibBigInts {
+    pub max_entries: u32,
+}
+
+fn big_ints() -> Vec<C> {
+    let p53 = 1i64 << 53;
+    vec![int(i64::MAX), int(i64::MAX - 1), int(p53 + 1), int(p53), int(0), int(-p53 - 1), int(i64::MIN + 1), int(i64::MIN)]
+}
+
+impl FStdlibBigInts {
+    fn tables(&self) -> u64 {
+        let v = big_ints().len() as u64;
+        (0..=self.max_entries).map(|n| v.pow(n)).sum()
+    }
+}
+
+impl Family for FStdlibBigInts {
+    fn name(&self) -> &'static str {
+        "F-stdlib-bigints"
+    }
+    fn len(&self) -> u64 {
+        self.tables() * FUNCTIONS.len() as u64
+    }
+    fn case(&self, idx: u64) -> Module {
+        let ti = idx % self.tables();
+        let i = idx / self.tables();
+        let fname = FUNCTIONS[(i % FUNCTIONS.len() as u64) as usize];
+        // key functions / callbacks return the value itself
+        build(&big_ints(), ti, 1, fname, 0, 0)
+    }
+}
+
 /// Tables beyond the sizes the exhaustive families reach (20 .. 100 entries: past every small-input
 /// shortcut a sort or a selection may take), filled from value patterns with many ties, out of order;
 /// every library function, value / negated-value key functions, string and integer keys.
